@@ -61,17 +61,17 @@ def register(reg, repo):
     DICTS_KEPT = "unchanged('$olen', '$okey', '$oval', '$dhas')"
     P_POST = ["ctx.$n_pause == old(ctx.$n_pause) + 1", "ctx.$n_resume == old(ctx.$n_resume)",
               "old(None.$n_clock) < ctx.$n_tpause and ctx.$n_tpause <= None.$n_clock",
-              OTHERS, FROZEN_TASKS, DICTS_KEPT]
+              OTHERS, FROZEN_TASKS, DICTS_KEPT, "ctx._active_task is old(ctx._active_task)"]
     R_POST = ["ctx.$n_resume == old(ctx.$n_resume) + 1", "ctx.$n_pause == old(ctx.$n_pause)",
               "old(None.$n_clock) < ctx.$n_tresume and ctx.$n_tresume <= None.$n_clock",
-              OTHERS, FROZEN_TASKS, DICTS_KEPT]
+              OTHERS, FROZEN_TASKS, DICTS_KEPT, "ctx._active_task is old(ctx._active_task)"]
     for name, post in (("env.ctx.pause", P_POST), ("env.ctx.resume", R_POST)):
         c = reg.contracts[name]
         c.post = list(post)
         c.xpost = list(post)
         c.note = ("user context hook (AsyncContext.pause/resume override): may raise anything; ghost counters/timestamps "
                   "record the event; E4'': does not advance pre-existing tasks, touch other pre-existing contexts' "
-                  "events or the registration maps")
+                  "events, the registration maps or the context's own bookkeeping attribute _active_task")
 
     # ---- AsyncTask context bookkeeping -------------------------------------------------------------------
     DM = ["$dget", "$dhas", "$olen", "$okey", "$oval"]
@@ -197,7 +197,8 @@ def register2(reg, repo):
               calls={"active_task._leave_context": "async_task.AsyncTask._leave_context"},
               post=["implies(active_task is None, unchanged('$dget', '$dhas', '$olen', '$okey', '$oval'))",
                     "implies(active_task is not None, not dhas(active_task._contexts, ident(context)))"],
-              xpost=["active_task is not None", "isinstance(exc, KeyError)"]))
+              xpost=["active_task is not None", "isinstance(exc, KeyError)",
+                     "not dhas(active_task._contexts, ident(context))"]))
 
     # user-overridable pause/resume: dynamic dispatch
     reg.add(C(X + "AsyncContext.resume!virtual", params=["self"], kind="method", modifies="*", trusted=True,
@@ -216,8 +217,16 @@ def register2(reg, repo):
               post=["result is self", "callcount('contexts.AsyncContext.resume!virtual') == 1",
                     "implies(not old(truthy(_asyncio_mode.cv_value)), callcount('contexts.enter_context') == 1)",
                     "call_before('contexts.enter_context', 'contexts.AsyncContext.resume!virtual')"],
-              xpost=["callcount('contexts.AsyncContext.resume!virtual') == 1"],
-              labels={("post", 1): "exactly-one-resume-on-entry", ("post", 3): "registered-before-resume"}))
+              xpost=["callcount('contexts.AsyncContext.resume!virtual') == 1",
+                     # the block is not entered, so __exit__ will not run: a failed entry must not leave the context registered
+                     "implies(not old(truthy(_asyncio_mode.cv_value)), callcount('contexts.leave_context') == 1 and "
+                     "call_before('contexts.AsyncContext.resume!virtual', 'contexts.leave_context'))",
+                     "implies(not old(truthy(_asyncio_mode.cv_value)) and old(" + ACTIVE + ") is not None, "
+                     "not dhas(old(" + ACTIVE + ")._contexts, ident(self)))"],
+              calls={"leave_context": "contexts.leave_context"},
+              labels={("post", 1): "exactly-one-resume-on-entry", ("post", 3): "registered-before-resume",
+                      ("xpost", 1): "failed-entry-unregisters", ("xpost", 2): "failed-entry-leaves-the-task-without-the-context",
+                      "site_assumes": {"leave_context": ["self._active_task is None or isinstance(self._active_task, AsyncTask)"]}}))
     reg.add(C(X + "AsyncContext.__exit__", modifies="*", types={},
               calls={"leave_context": "contexts.leave_context"},
               labels={"noattrcheck": True, ("post", 0): "exactly-one-pause-on-exit",
